@@ -58,6 +58,11 @@ type engine struct {
 	predToDecl         map[ast.PredicateSym]*ast.Decl
 	stats              Stats
 	options            EvalOptions
+
+	// createdElsewhere counts created facts that do not make the fact store
+	// grow: facts written to the temporal store and replacements of a fact
+	// of a predicate with a merge declaration. Shared by all strata.
+	createdElsewhere *int
 }
 
 // ExternalPredicateCallback is used to query external data sources.
@@ -236,6 +241,7 @@ func EvalStratifiedProgramWithStats(programInfo *analysis.ProgramInfo,
 		deltaStore:         factstore.NewMultiIndexedArrayInMemoryStore(),
 		temporalStore:      opts.temporalStore,
 		temporalDeltaStore: temporalDeltaStore,
+		createdElsewhere:   new(int),
 		evalTime:           evalTime,
 		programInfo:        programInfo,
 		strata:             strata,
@@ -321,6 +327,7 @@ func (e *engine) evalStrata() error {
 			deltaStore:         factstore.NewMultiIndexedArrayInMemoryStore(),
 			temporalStore:      e.temporalStore,
 			temporalDeltaStore: temporalDeltaStore,
+			createdElsewhere:   e.createdElsewhere,
 			evalTime:           e.evalTime,
 			programInfo:        &analysis.ProgramInfo{stratifiedProgram.EdbPredicates, stratifiedProgram.IdbPredicates, nil, nil, stratifiedProgram.Rules, stratumDecls, nil},
 			predToStratum:      e.predToStratum,
@@ -503,7 +510,10 @@ func (e *engine) mergeDelta() error {
 				fact.Args[fundep.Target[0]] = value
 				if !existingFact.Equals(fact) {
 					if storeWithRemove, ok := e.store.(factstore.FactStoreWithRemove); ok {
-						storeWithRemove.Remove(existingFact)
+						if storeWithRemove.Remove(existingFact) && e.createdElsewhere != nil {
+							// A replacement creates a fact without making the store grow.
+							*e.createdElsewhere++
+						}
 					}
 					e.store.Add(fact)
 					return errBreak
@@ -534,6 +544,22 @@ func (e *engine) mergeDelta() error {
 	return err
 }
 
+// checkTotalFactLimit reports an error if more facts were created than the
+// limit allows: the growth of the fact store plus the facts created elsewhere.
+func (e *engine) checkTotalFactLimit() error {
+	if e.options.totalFactLimit <= 0 {
+		return nil
+	}
+	count := e.store.EstimateFactCount()
+	if e.createdElsewhere != nil {
+		count += *e.createdElsewhere
+	}
+	if count > e.options.totalFactLimit {
+		return fmt.Errorf("fact size limit reached %d > %d", count, e.options.totalFactLimit)
+	}
+	return nil
+}
+
 func (e *engine) eval() error {
 	predicateAllowList := *e.options.predicateAllowList
 	// First round.
@@ -552,8 +578,15 @@ func (e *engine) eval() error {
 		for _, tf := range derivedFacts {
 			// Add to temporal store if interval is present
 			if tf.Interval != nil && e.temporalStore != nil {
-				if _, err := e.temporalStore.Add(tf.Atom, *tf.Interval); err != nil {
+				added, err := e.temporalStore.Add(tf.Atom, *tf.Interval)
+				if err != nil {
 					return err
+				}
+				if added && e.createdElsewhere != nil {
+					*e.createdElsewhere++
+					if err := e.checkTotalFactLimit(); err != nil {
+						return err
+					}
 				}
 				if e.temporalDeltaStore != nil {
 					if _, err := e.temporalDeltaStore.Add(tf.Atom, *tf.Interval); err != nil {
@@ -608,6 +641,12 @@ func (e *engine) eval() error {
 							return err
 						}
 						if added {
+							if e.createdElsewhere != nil {
+								*e.createdElsewhere++
+								if err := e.checkTotalFactLimit(); err != nil {
+									return err
+								}
+							}
 							if newTemporalDeltaStore != nil {
 								if _, err := newTemporalDeltaStore.Add(tf.Atom, *tf.Interval); err != nil {
 									return err
@@ -630,8 +669,8 @@ func (e *engine) eval() error {
 			if err := e.mergeDelta(); err != nil {
 				return err
 			}
-			if e.options.totalFactLimit > 0 && e.store.EstimateFactCount() > e.options.totalFactLimit {
-				return fmt.Errorf("fact size limit reached %d > %d", e.store.EstimateFactCount(), e.options.totalFactLimit)
+			if err := e.checkTotalFactLimit(); err != nil {
+				return err
 			}
 			if !incrementalFactAdded {
 				break
